@@ -3,6 +3,66 @@
 import json
 
 CLAIMED = {
+    "C02": dict(
+        text="Lean 4 (Props/C02.lean): what is logic in the element-wise functions — two's-complement wrap is a ring homomorphism (add/sub/mul/neg computed in a wider integer type and wrapped equal the computation in the operand's width; narrowing twice is narrowing once; in-range values are preserved), floor/sign conventions of floor_divide/remainder (division identity, sign of the divisor, truncating vs floored remainder with the proved counterexample and the correction ndonnx now applies). Floating-point kernels are opaque to Lean. The tie: every element-wise function x every dtype of its standard domain is evaluated on ALL values of the 8-bit/bool domains (all 65 536 pairs for binary functions), boundary sets of the wider integers and a 45-value float grid with NaN/inf/-0.0/extremes, eager and traced, and compared with NumPy exactly (bool/int) or within 4 ulp; totality on the domain is checked on the exhaustive function x dtype matrix (Gen/FnDtype*.lean, kernel-checked against Ndx.fnLaw).",
+        note="Trusted: Lean kernel; NumPy as the value oracle; onnxruntime's floating-point kernels are runtime behaviour exercised only (accuracy cannot be stated over Lean's opaque floats). ~30 recorded findings (float64 routed through float32, naive expm1/log1p/logaddexp, integer pow/floor_divide through floating point, uint64 >= 2**63 ordering, ...), each keyed by function/dtype/failure region.",
+        technique="Lean 4 proof of the integer routing lemmas + exhaustive small-domain value correspondence with NumPy",
+        design_ref="§7 C02"),
+    "C04": dict(
+        text="Lean 4 (Props/C04.lean): for the model of variadic_op with any number of operands and NumPy broadcasting — mask rule (output null iff some contributing input is null), non-null outputs are the plain-data result, and payload non-interference (changing what is stored under nulls changes neither the output mask nor any non-null value), by induction over the operand list for an arbitrary pointwise operator; the same for where (condition null or selected branch null), for _transmute-based indexing/layout (null flag travels with its element) and for fill-with-neutral reductions (fold over filled values = fold over non-null values). The tie: paired-payload runs — every nullable input is materialised twice with different payloads (type extremes, NaN, inf, junk strings) and ~45 operations are evaluated eagerly and traced on both; results must agree, masks must follow the rule, non-null values must equal NumPy's plain-data result.",
+        note="Trusted: Lean kernel; the model of variadic_op/where (tied by the paired-payload correspondence); which primitives are pointwise is not proved about the Python source — non-pointwise ones routed through variadic_op (sort, argsort, argmax) are recorded findings.",
+        technique="Lean 4 proof: non-interference by induction over operands + paired-payload metamorphic correspondence",
+        design_ref="§7 C04"),
+    "C05": dict(
+        text="Lean 4 (Props/C05.lean): the dict-merging fold of _build.py (collectAll) equals the documented interface — requests in order, a core array under its own name, a struct array as <name>_<field> recursively — whenever the flattened names are pairwise distinct (induction over requests and field trees), with the proved counterexample for clashing names; Gen/Schema.lean (regenerated every run): every dtype's schema name maps back to it, names are injective. The tie: random build signatures (unused inputs, constants-only, one array under two names, static/symbolic/unknown dims, 24 dtypes + a user struct dtype): onnx.checker full_check, onnxruntime load, names/order (vs the Lean model), element types, dims, schema, and schema-directed disassemble-run-assemble round trips.",
+        note="Trusted: Lean kernel; ONNX-checker validity and loadability are facts about spox/onnx/onnxruntime on the emitted graph and are exercised, not proved.",
+        technique="Lean 4 proof: interface flattening by induction over dtype trees + build-signature correspondence",
+        design_ref="§7 C05"),
+    "C09": dict(
+        text="Lean 4 (Props/C09.lean): frame theorems on the propagation state machine — over every history, a cell that is never the target of _set keeps its graph term and value; every other transition allocates exactly one fresh cell; an in-place update replaces term and value together. The tie: (1) assignments x[idx] = v for every index form of C08, boolean masks, integer arrays, scalar/array/other-dtype updates and augmented operators vs NumPy, eager and traced, incl. immutability of the right-hand side; (2) a cell-sharing table over ~50 public call forms x 8 dtypes x {eager, lazy} (does the result share a core array with its argument, is the argument changed, does a write go through); (3) random histories over a pool of arrays vs a NumPy pool of independent copies.",
+        note="Trusted: Lean kernel; the state-machine model (tied by the C07 history correspondence); the sharing table is dumped by observing object identity of _CoreArray instances. The ScatterND-based setitem algorithm itself is tied by correspondence, not by a theorem.",
+        technique="Lean 4 proof: frame invariant by induction over histories + assignment/aliasing correspondence",
+        design_ref="§7 C09"),
+    "C10": dict(
+        text="Lean 4 (Props/C10.lean): for every rank, every shape (extents 0 included) and every axis argument (None, integer of either sign, tuple, empty tuple) the shape produced by _normalize_axes + ONNX Reduce*(noop_with_empty_axes = axis is not None) is NumPy's keepdims rule (reduce_shape), negative axes alias their non-negative spelling, the empty tuple is a no-op, None reduces everything. The tie: 12 reductions + 6 Array methods x dtypes x shapes of rank 0-3 with extents 0-3 x all axis forms x keepdims x correction/include_initial vs NumPy (shape, accumulator dtype, values, neutral elements, first occurrence), eager and traced; result shapes also against the Lean model through the driver.",
+        note="Trusted: Lean kernel; ONNX Reduce*/ArgMax/CumSum semantics as modelled (validated through onnxruntime by the same sweep); float accumulation order is runtime behaviour.",
+        technique="Lean 4 proof: reduced-shape theorem for all ranks/axes + NumPy correspondence sweep",
+        design_ref="§7 C10"),
+    "C11": dict(
+        text="Lean 4 (Props/C11.lean): roll (Range/Add/Mod(fmod=0)/Gather) equals NumPy's rotation for every tensor rank, shape, axis and shift of any sign and magnitude (roll_axis, pointwise on index functions); x[::-1] selects n-1..0 for every extent (flip_slice_triple, from the C08 slice theorem); matrix_transpose's permutation swaps exactly the last two axes; _transmute moves every field by the same index map. The tie: 16 layout functions x 12 dtypes (core, string, nullable, a user struct dtype with a nested nullable field) x random admissible parameters with token data, compared field by field with NumPy, eager and traced; roll/flip additionally against the Lean model.",
+        note="Trusted: Lean kernel; the ONNX operators that already have NumPy's semantics (Transpose, Reshape, Expand, Unsqueeze, Squeeze, Concat, Trilu) are used through onnxruntime and validated by the sweep, not modelled.",
+        technique="Lean 4 proof: index-map equality for roll/flip/matrix_transpose + token-data correspondence",
+        design_ref="§7 C11"),
+    "C12": dict(
+        text="Lean 4 (Props/C12.lean): the int64 routing cast is an order embedding on every value below 2**63 and provably not from 2**63 on (the recorded uint64 finding); searchsorted's counting specification (#{x<v}, #{x<=v}) is monotone, bounded, left <= right, and on a sorted list is exactly the insertion point (everything before is < v, everything after >= v) — the counting argument that exposed and now specifies the repaired side='right' defect. The tie: sort/argsort/unique_*/searchsorted/nonzero/where x 10 numeric dtypes x shapes, duplicates/distinct/type extremes, axis, direction, sorter, lengths to 300 (thorough 70 000) vs NumPy and the defining invariants, eager and traced.",
+        note="Trusted: Lean kernel; TopK/Unique behave as specified by ONNX (assumption validated by the sweep through onnxruntime).",
+        technique="Lean 4 proof: order-embedding and counting lemmas + invariant/NumPy correspondence",
+        design_ref="§7 C12"),
+    "C13": dict(
+        text="Lean 4 (Props/C13.lean): the elements ONNX Range emits for arange (start + i*step, i < rangeLen) are exactly Python's range for positive steps — all below stop and the next one not; wrong-direction bounds give length 0; eye has ones exactly on the k-th diagonal. The tie: asarray(v).to_numpy() round trips for 12 NumPy dtypes x ranks 0-4 x masks {none, nomask, scalar, broadcastable, full} x {array, nested list, object array, scalar}, and zeros/ones/empty/full/eye/arange/linspace/*_like over parameter grids (shape as int/tuple/array/placeholder, negative steps, num in {0,1}, endpoint, nullable/string dtypes) vs NumPy.",
+        note="Trusted: Lean kernel; NumPy as oracle; float arange/linspace values within 2-4 ulp.",
+        technique="Lean 4 proof: Range/eye arithmetic lemmas + NumPy round-trip correspondence",
+        design_ref="§7 C13"),
+    "C14": dict(
+        text="Lean 4 (Props/C14.lean + Gen/CastMatrix.lean regenerated every run): the cast protocol model (nullable -> core raises a cast error, every other built-in cast returns the target dtype) holds for all 24x24 pairs and the dumped astype outcome matrix equals it (decide +kernel); mask rule of nullable casts; integer casts preserve every in-range value (two's-complement lemma); can_cast equals NumPy's safe-casting table, which is reflexive, transitive and never narrows. The tie: every ordered pair x boundary values of the source type in range of the target x masks {none, partial, full}, eager and traced, vs ndarray.astype; same-dtype casts yield independent arrays.",
+        note="Trusted: Lean kernel; float->int truncation, int->float rounding and number<->text conversion are performed by the Cast kernel and validated by the value sweep, not proved.",
+        technique="Lean 4 proof: decide +kernel over the regenerated cast matrix + boundary-value correspondence",
+        design_ref="§7 C14"),
+    "C18": dict(
+        text="Lean 4 (Props/C18.lean): the state machine has no component besides the heap — run (H ++ P) = run H then run P; cells that later activity never _set keep term and value (frame); observations are functions of the heap; the transition function is deterministic. The tie (metamorphic): a battery of traced models (using ndx.e/inf/nan/pi, nullable, strings, layout, constants-only) and random programs are built in child interpreters — fresh, with another PYTHONHASHSEED, and after histories of unrelated tracing/evaluation/builds/failing calls (incl. calls that receive library constants and user arrays of other dtypes); serialized bytes must be identical, two builds in a row identical, library constants and dtype singletons unchanged.",
+        note="Trusted: Lean kernel; absence of hidden global state in the implementation is only detectable by the metamorphic runs — the theorem is about the model's heap.",
+        technique="Lean 4 proof: compositionality/frame of the state machine + fresh-process vs after-history byte comparison",
+        design_ref="§7 C18"),
+    "C19": dict(
+        text="Lean 4 (Props/C19.lean): for argument trees of any nesting (lists, tuples, dicts, slices; positional and keyword) the model of _aggregate_arguments computes constant_inputs = every array leaf holds data, and the rewritten arguments have the same structure (mutual structural induction); from_spox_var(spox_var(a)) keeps the denotation and drops the value. The tie: spox round trips for all core dtypes (lazy and data-holding) and mixed ndonnx/spox programs vs NumPy; eager_propagate-wrapped user functions with random nested argument trees, 1-3 outputs, string/nullable leaves, non-idempotent in-place work, random subsets lazy; a user struct dtype through asarray/to_numpy/model I/O.",
+        note="Trusted: Lean kernel; the argument-tree model of _aggregate_arguments (tied by the nested-argument correspondence).",
+        technique="Lean 4 proof: structural induction over argument trees + nested-argument correspondence",
+        design_ref="§7 C19"),
+    "C20": dict(
+        text="Lean 4 (Props/C20.lean): the decision model of __bool__/__int__/__float__/__index__/__len__/__iter__ agrees with NumPy's rules on every data-holding array (any dtype kind, rank, size) wherever the property fixes NumPy's answer, refuses every scalar conversion on placeholders, refuses len/iteration exactly when the leading extent is not a known integer; iteration is a map over range(n): exactly shape[0] items, the i-th being index i. The tie: all 24 dtypes x shapes of rank 0-3 (extents 0-4) x {eager, lazy-static, lazy-symbolic, lazy-unknown} x six protocols vs the Lean model (driver) and real NumPy, items compared with x[i].",
+        note="Trusted: Lean kernel; the decision model (tied exhaustively over the enumerated table every run).",
+        technique="Lean 4 proof: case analysis of the protocol decision model + exhaustive table correspondence",
+        design_ref="§7 C20"),
     "C06": dict(
         text="Lean 4: the size-generic statements — Props/C06.lean (the constants index_normalise writes into the graph are size-independent and select Python's positions at every extent n>=0), Props/C08.lean (slice_axis_agree for all n) and the layout index-map theorems of Props/C11.lean hold for every run-time extent incl. 0 and 1, because the emitted term mentions no extent. The tie: random programs are traced ONCE with symbolic or unknown dims (all inputs lazy, and a random subset), and the same onnxruntime session is run at the trace-time sizes and at further size assignments over {0,1,2,3,5,8} per size variable, including a unit size variable that triggers broadcasting through unknown extents; every step is compared with eager evaluation at that size (dtype, shape, field shapes, mask, values).",
         note="Trusted: Lean kernel; the index/layout models (tied by the C08/C11 correspondence runs); onnxruntime as the evaluator of both sides. Programs containing sort/argsort are not run at zero extents (recorded finding: interpreter crash in onnxruntime TopK). Two recorded findings (where equal-branches folding with symbolic condition; argmax/argmin on nullable input).",
